@@ -193,7 +193,7 @@ def normalise(r):
 # ------------------------------------------------------------------------------------------------------------------------
 # exploration
 # ------------------------------------------------------------------------------------------------------------------------
-S1 = ("datetime.date", "time.time")  # two new modules, different member names
+S1 = ("datetime.date", "time.time", "xml.dom.minidom.Document")  # new modules, different member names; one module name has dots of its own
 S_NESTED = ("pickle.loads", "_pickle.loads", "pickle.load", "_pickle.load")
 
 
@@ -240,7 +240,8 @@ def builtin_sample(repo: Repo) -> List[Tuple[str, str]]:
 
 def additions_sets(repo: Repo):
     b = builtin_sample(repo)
-    s2 = (f"{b[0][0]}.BrandNewMember",)  # a new member of an already allow-listed module
+    # new members of already allow-listed modules - one of them a module whose own name contains dots
+    s2 = (f"{b[0][0]}.BrandNewMember",) + ((f"{b[1][0]}.AnotherNewMember",) if "." in b[1][0] else ())
     return {"none": None, "new-modules": S1, "new-member": s2}
 
 
@@ -252,7 +253,12 @@ def probe_universe(repo: Repo):
         ("cross:datetime.time", ("datetime", "time")), ("cross:time.date", ("time", "date")),
         ("added-member", (b[0][0], "BrandNewMember")), ("cross-member", (b[1][0], "BrandNewMember")),
         ("never-allowed", ("os", "system")),
-    ]
+        # names with dots: an addition names (module, member) by its LAST dot; a dotted member (STACK_GLOBAL carries them) is a
+        # different global than the one added, and an attribute path below an allow-listed name is not that name
+        ("added:xml.dom.minidom.Document", ("xml.dom.minidom", "Document")),
+        ("split-elsewhere:xml.dom", ("xml.dom", "minidom.Document")), ("split-elsewhere:xml", ("xml", "dom.minidom.Document")),
+        ("below-builtin", (b[0][0], b[0][1] + ".__class__")),
+    ] + ([("added-member-of-dotted-module", (b[1][0], "AnotherNewMember")), ("cross-member-2", (b[0][0], "AnotherNewMember"))] if "." in b[1][0] else [])
 
 
 def expected_allowed(repo: Repo, additions) -> set:
